@@ -15,7 +15,8 @@ MUTS = {
 PATCHES = {"S1_seeded": "/root/work/seedout/C13/1/patch.diff", "S2_seeded_find_tag_entry_guard": "/root/work/seedout/C13/2/patch.diff",
            "S3_seeded_no_reidentification": "/root/work/seedout/C13/3/patch.diff", "S4_seeded_cached_prefixed_names": "/root/work/seedout/C13/4/patch.diff",
            "S8_seeded_get_tag_entry_guard_all_sections": "/root/work/seedout/C13/8/patch.diff",
-           "S9_seeded": "/root/work/seedout/C13/9/patch.diff", "S10_seeded_loaders_reset_prefix": "/root/work/seedout/C13/10/patch.diff"}
+           "S9_seeded": "/root/work/seedout/C13/9/patch.diff", "S10_seeded_loaders_reset_prefix": "/root/work/seedout/C13/10/patch.diff",
+           "S11_seeded_extension_word_position": "/root/work/seedout/C13/11/patch.diff"}
 which = sys.argv[1:] or (list(PATCHES) + list(REVERTS) + list(MUTS))
 for name in which:
     d = f"/root/work/C13/mut/{name}"
